@@ -3,6 +3,7 @@ import PraatModel.Props.C15
 import PraatModel.Props.C05Points
 import PraatModel.Props.C06
 import PraatModel.Props.C07
+import PraatModel.Props.C07Points
 import PraatModel.Props.C08
 
 /-!
@@ -16,16 +17,16 @@ All statements are about the model functions `Tg.crop`, `Tg.eraseRegion`, `Tg.in
 |---|---|
 | what `validate()` checks | `validate_iff` (= `C15.tgvalidate_iff`), `validate_of_spans`, `validate_empty` |
 | crop, strict / truncated, both `rebaseToZero` values | `crop_validate` (no hypothesis on the textgrid but well-formed tiers), `crop_validate_ok` |
-| eraseRegion, both `doShrink` values | `eraseRegion_validate` (spans as `Option Int`, covers the textgrid without tiers), `eraseRegion_validate_span` (old span named), `eraseRegion_validate_ok` |
+| eraseRegion, both `doShrink` values, ANY region `a < b` (since fix A28 also regions sticking out of the span: `clipLen`, `eraseHi_int`) | `eraseRegion_validate` (spans as `Option Int`, covers the textgrid without tiers), `eraseRegion_validate_span` (old span named), `eraseRegion_validate_ok` |
 | insertSpace, all four modes | `insertSpace_validate`, `insertSpace_validate_span`, `insertSpace_validate_ok` (mode `error`: no straddler) |
 | lax crop is rightly excluded | `crop_lax_spans_differ_example` |
 
 The `_validate` theorems are conditional on the call returning a textgrid and need no success hypothesis; the `_ok`
 companions show that the call does return one (`tgop_ok` of `C12` plus the tier-level success theorems of C06–C08).
 Ingredients: `foldlM_addTier_span` (the `addTier` loop never widens a span that already contains every added tier —
-for the shrinking erase the tiers, `b - a` shorter, are added under the OLD span and the end is overwritten
-afterwards), and the tier-level `anycrop_spec`, `anyerase_spec` (with `perase_span` for point tiers, new here),
-`anyinsert_spec`.  Proved non-vacuity examples and `#guard` evaluations on `exG` close the file.
+for the shrinking erase the tiers, shorter by the part of the region inside the span, are added under the OLD span and
+the end is overwritten afterwards), and the tier-level `anycrop_spec`, `anyerase_spec` (with `perase_span` for point
+tiers, from `C07.perase_span_any`), `anyinsert_spec`.  Proved non-vacuity examples and `#guard` evaluations on `exG` close the file.
 -/
 namespace C12
 
@@ -208,55 +209,25 @@ theorem mkPTier_span {name : String} {ps : List (Pt Int)} {lo hi : Int} {t : PTi
     omega
   · cases h
 
-/-- point-tier `eraseRegion` on a well-formed tier: never refuses a proper region; keeps the span, or — shrinking,
-region inside the span — moves the end back by exactly `b - a` -/
-theorem perase_span (t : PTier Int) (hwf : t.WF) (a b : Int) (hab : a < b) (sh : Bool)
-    (hin : sh = true → t.lo ≤ a ∧ b ≤ t.hi) :
-    ∃ t', t.eraseRegion a b sh = .ok t' ∧ t'.WF ∧ t'.lo = t.lo ∧
-      t'.hi = (if sh then t.hi - (b - a) else t.hi) := by
-  cases h : t.eraseRegion a b sh with
-  | error e => have := (C05.perase_err t hwf a b sh e h).2; omega
-  | ok t' =>
-    refine ⟨t', rfl, C05.perase_wf t a b sh t' h, ?_⟩
-    unfold PTier.eraseRegion at h
-    rw [C05.pnew_of_wf t hwf] at h
-    simp only [bind, Except.bind] at h
-    cases hc : t.crop a b false with
-    | error e => simp [hc] at h
-    | ok ct =>
-      simp only [hc] at h
-      cases hd : ct.ps.reverse.foldlM deletePt t.ps with
-      | error e => simp [hd] at h
-      | ok ps0 =>
-        simp only [hd] at h
-        have hsub := C05.foldlM_deletePt_sublist _ _ _ hd
-        cases sh with
-        | false =>
-          simp only [Bool.false_eq_true, if_false, pure, Except.pure, Except.ok.injEq] at h
-          subst h
-          exact ⟨rfl, rfl⟩
-        | true =>
-          obtain ⟨h1, h2⟩ := hin rfl
-          simp only [if_true] at h
-          have hs : shiftBack a b t.hi = t.hi - (b - a) := by simp only [shiftBack]; omega
-          simp only [PTier.new, Option.getD_some, Option.getD_none, hs] at h
-          refine mkPTier_span h (by omega) ?_
-          intro p hp
-          obtain ⟨q, hq, hqp⟩ := List.mem_filterMap.1 hp
-          have hq' := hsub.subset hq
-          have q1 := hwf.inLo q hq'
-          have q2 := hwf.inHi q hq'
-          split at hqp
-          · cases hqp; omega
-          · split at hqp
-            · cases hqp; simp only [shiftBack]; omega
-            · cases hqp
+/-- the length of the part of the region `[a, b]` that lies inside the span `[lo, hi]` (0 if there is none): what
+`eraseRegion(doShrink=True)` cuts out since fix A28 -/
+def clipLen (lo hi a b : Int) : Int := max 0 (min b hi - max a lo)
 
-/-- `eraseRegion(…, 'truncate', doShrink)` of a well-formed tier of either class -/
-theorem anyerase_spec {t : AnyTier Int} (hwf : AnyWF t) {a b : Int} (hab : a < b) (sh : Bool)
-    (hin : sh = true → t.lo ≤ a ∧ b ≤ t.hi) :
+theorem clipLen_in {lo hi a b : Int} (hab : a < b) (hlo : lo ≤ a) (hhi : b ≤ hi) : clipLen lo hi a b = b - a := by
+  simp only [clipLen]; omega
+
+/-- point-tier `eraseRegion` on a well-formed tier: never refuses a proper region; keeps the span, or — shrinking —
+moves the end back by exactly the length of the part of the region inside the span (ANY region) -/
+theorem perase_span (t : PTier Int) (hwf : t.WF) (a b : Int) (hab : a < b) (sh : Bool) :
+    ∃ t', t.eraseRegion a b sh = .ok t' ∧ t'.WF ∧ t'.lo = t.lo ∧
+      t'.hi = (if sh then t.hi - clipLen t.lo t.hi a b else t.hi) := by
+  obtain ⟨t', h1, h2, _, h4, h5⟩ := C07.perase_span_any t hwf a b hab sh
+  exact ⟨t', h1, h2, h4, h5⟩
+
+/-- `eraseRegion(…, 'truncate', doShrink)` of a well-formed tier of either class, ANY region `a < b` -/
+theorem anyerase_spec {t : AnyTier Int} (hwf : AnyWF t) {a b : Int} (hab : a < b) (sh : Bool) :
     ∃ t', t.eraseRegion a b .truncate sh = .ok t' ∧ AnyWF t' ∧ t'.lo = t.lo ∧
-      t'.hi = (if sh then t.hi - (b - a) else t.hi) := by
+      t'.hi = (if sh then t.hi - clipLen t.lo t.hi a b else t.hi) := by
   cases t with
   | I t =>
     cases sh with
@@ -264,12 +235,28 @@ theorem anyerase_spec {t : AnyTier Int} (hwf : AnyWF t) {a b : Int} (hab : a < b
       obtain ⟨t', h1, h2⟩ := C07.erase_noshrink t hwf a b hab .truncate (by decide)
       exact ⟨.I t', by simp only [AnyTier.eraseRegion, h1]; rfl, h2.wf, h2.lo, h2.hi⟩
     | true =>
-      obtain ⟨h1, h2⟩ := hin rfl
-      obtain ⟨_, t', _, e1, e2, _, e4, e5, _⟩ := C07.erase_shrink t hwf a b hab h1 h2 .truncate (by decide)
+      obtain ⟨t', e1, e2, _, e4, e5⟩ := C07.erase_shrink_any t hwf a b hab .truncate (by decide)
       exact ⟨.I t', by simp only [AnyTier.eraseRegion, e1]; rfl, e2, e4, e5⟩
   | P t =>
-    obtain ⟨t', h1, h2, h3, h4⟩ := perase_span t hwf a b hab sh hin
+    obtain ⟨t', h1, h2, h3, h4⟩ := perase_span t hwf a b hab sh
     exact ⟨.P t', by simp only [AnyTier.eraseRegion, h1]; rfl, h2, h3, h4⟩
+
+/-- the separately computed end of `Textgrid.eraseRegion` in exact arithmetic -/
+theorem eraseHi_int (lo hi : Option Int) (a b : Int) (sh : Bool) :
+    Tg.eraseHi lo hi a b sh = (if sh then hi.map (fun h => h - clipLen (lo.getD a) h a b) else hi) := by
+  cases hi with
+  | none => cases sh <;> rfl
+  | some h =>
+    cases sh with
+    | false => rfl
+    | true =>
+      cases lo with
+      | none =>
+        simp only [Tg.eraseHi, if_true, pyMin2, shiftBack, clipLen, Option.map_some, Option.getD_none]
+        split <;> split <;> congr 1 <;> omega
+      | some l =>
+        simp only [Tg.eraseHi, if_true, pyMax2, pyMin2, shiftBack, clipLen, Option.map_some, Option.getD_some]
+        split <;> split <;> split <;> congr 1 <;> omega
 
 /-- no interval of the tier has `s` strictly inside (a point tier has no intervals) -/
 def NoStraddler (s : Int) : AnyTier Int → Prop
@@ -386,15 +373,15 @@ theorem crop_validate_ok (g : Tg Int) (hwf : ∀ t ∈ g.tiers, AnyWF t) (hnd : 
 
 /-! ## (3) eraseRegion -/
 
-/-- **eraseRegion_validate**: `Textgrid.eraseRegion(a, b, doShrink)` on a valid textgrid of well-formed tiers (when
-shrinking: the region inside the textgrid's span): if it returns a textgrid then that textgrid validates, it starts
-where the old one started, it ends where the old one ended — `b - a` earlier when shrinking —, and every tier is
-well-formed and has exactly the new textgrid's span -/
+/-- **eraseRegion_validate**: `Textgrid.eraseRegion(a, b, doShrink)` on a valid textgrid of well-formed tiers, ANY region
+(since fix A28 no hypothesis on its position: a region sticking out of the span is clipped to it, by the textgrid and by
+every tier alike): if it returns a textgrid then that textgrid validates, it starts where the old one started, it ends
+where the old one ended — earlier by the length of the part of the region inside the span when shrinking —, and every
+tier is well-formed and has exactly the new textgrid's span -/
 theorem eraseRegion_validate (g : Tg Int) (hwf : ∀ t ∈ g.tiers, AnyWF t) (hv : g.validate = true) (a b : Int)
-    (sh : Bool) (hin : sh = true → (∀ lo, g.lo = some lo → lo ≤ a) ∧ (∀ hi, g.hi = some hi → b ≤ hi))
-    (g' : Tg Int) (h : g.eraseRegion a b sh = .ok g') :
+    (sh : Bool) (g' : Tg Int) (h : g.eraseRegion a b sh = .ok g') :
     g'.validate = true ∧
-    g'.lo = g.lo ∧ g'.hi = (if sh then g.hi.map (fun x => x - (b - a)) else g.hi) ∧
+    g'.lo = g.lo ∧ g'.hi = (if sh then g.hi.map (fun x => x - clipLen (g.lo.getD a) x a b) else g.hi) ∧
     ∀ t' ∈ g'.tiers, g'.lo = some t'.lo ∧ g'.hi = some t'.hi ∧ AnyWF t' := by
   obtain ⟨_, hsp⟩ := (validate_iff g).1 hv
   unfold Tg.eraseRegion at h
@@ -405,10 +392,9 @@ theorem eraseRegion_validate (g : Tg Int) (hwf : ∀ t ∈ g.tiers, AnyWF t) (hv
     obtain ⟨g1, h1, h2⟩ := bind_ok h
     have h2 := pure_ok h2
     have hper : ∀ t ∈ g.tiers, ∀ t', t.eraseRegion a b .truncate sh = .ok t' →
-        AnyWF t' ∧ t'.lo = t.lo ∧ t'.hi = (if sh then t.hi - (b - a) else t.hi) := by
+        AnyWF t' ∧ t'.lo = t.lo ∧ t'.hi = (if sh then t.hi - clipLen t.lo t.hi a b else t.hi) := by
       intro t ht t' ht'
-      obtain ⟨e1, e2, _⟩ := hsp t ht
-      obtain ⟨t'', e3, e4⟩ := anyerase_spec (hwf t ht) hab sh (fun hs => ⟨(hin hs).1 _ e1, (hin hs).2 _ e2⟩)
+      obtain ⟨t'', e3, e4⟩ := anyerase_spec (hwf t ht) hab sh
       rw [ht'] at e3; cases e3
       exact e4
     obtain ⟨r1, r2, r3, r4⟩ := tgfold_spans (·.eraseRegion a b .truncate sh) _ g.tiers _ _ g1 h1 (by
@@ -416,33 +402,30 @@ theorem eraseRegion_validate (g : Tg Int) (hwf : ∀ t ∈ g.tiers, AnyWF t) (hv
       obtain ⟨e1, e2, _⟩ := hsp t ht
       obtain ⟨_, e3, e4⟩ := hper t ht t' ht'
       refine ⟨⟨_, e1, by omega⟩, ⟨_, e2, ?_⟩⟩
-      rw [e4]; split <;> omega)
-    have hshift : g.hi.map (shiftBack a b) = g.hi.map (fun x => x - (b - a)) := by
-      congr 1; funext x; simp only [shiftBack]; omega
+      rw [e4]; simp only [clipLen]; split <;> omega)
     subst h2
-    rw [hshift]
+    rw [eraseHi_int]
     have hts : ∀ t' ∈ g1.tiers, g1.lo = some t'.lo ∧
-        (if sh = true then g.hi.map (fun x => x - (b - a)) else g.hi) = some t'.hi ∧ AnyWF t' := by
+        (if sh = true then g.hi.map (fun x => x - clipLen (g.lo.getD a) x a b) else g.hi) = some t'.hi ∧ AnyWF t' := by
       intro t' ht'
       obtain ⟨t, ht, e⟩ := r4 t' ht'
       obtain ⟨e1, e2, _⟩ := hsp t ht
       obtain ⟨e3, e4, e5⟩ := hper t ht t' e
       refine ⟨by rw [r1, e1, e4], ?_, e3⟩
-      rw [e2, e5]; cases sh <;> rfl
+      rw [e1, e2, e5]; cases sh <;> rfl
     exact ⟨validate_of_spans r3 hts, r1, rfl, hts⟩
 
-/-- the same with the old span named: span `[lo, hi]` becomes `[lo, hi]`, or `[lo, hi - (b - a)]` when shrinking -/
+/-- the same with the old span named: span `[lo, hi]` becomes `[lo, hi]`, or — shrinking — `[lo, hi - clipLen lo hi a b]`
+(`= [lo, hi - (b - a)]` for a region inside the span, `clipLen_in`) -/
 theorem eraseRegion_validate_span (g : Tg Int) (hwf : ∀ t ∈ g.tiers, AnyWF t) (hv : g.validate = true) (a b : Int)
-    (sh : Bool) (lo hi : Int) (hlo : g.lo = some lo) (hhi : g.hi = some hi) (hin : sh = true → lo ≤ a ∧ b ≤ hi)
+    (sh : Bool) (lo hi : Int) (hlo : g.lo = some lo) (hhi : g.hi = some hi)
     (g' : Tg Int) (h : g.eraseRegion a b sh = .ok g') :
     g'.validate = true ∧
-    g'.lo = some lo ∧ g'.hi = some (if sh then hi - (b - a) else hi) ∧
-    ∀ t' ∈ g'.tiers, t'.lo = lo ∧ t'.hi = (if sh then hi - (b - a) else hi) ∧ AnyWF t' := by
-  obtain ⟨r1, r2, r3, r4⟩ := eraseRegion_validate g hwf hv a b sh (fun hs =>
-    ⟨fun l hl => by rw [hlo] at hl; cases hl; exact (hin hs).1,
-     fun x hx => by rw [hhi] at hx; cases hx; exact (hin hs).2⟩) g' h
-  have r3' : g'.hi = some (if sh then hi - (b - a) else hi) := by
-    rw [r3, hhi]; cases sh <;> rfl
+    g'.lo = some lo ∧ g'.hi = some (if sh then hi - clipLen lo hi a b else hi) ∧
+    ∀ t' ∈ g'.tiers, t'.lo = lo ∧ t'.hi = (if sh then hi - clipLen lo hi a b else hi) ∧ AnyWF t' := by
+  obtain ⟨r1, r2, r3, r4⟩ := eraseRegion_validate g hwf hv a b sh g' h
+  have r3' : g'.hi = some (if sh then hi - clipLen lo hi a b else hi) := by
+    rw [r3, hhi, hlo]; cases sh <;> rfl
   refine ⟨r1, r2.trans hlo, r3', ?_⟩
   intro t' ht'
   obtain ⟨e1, e2, e3⟩ := r4 t' ht'
@@ -452,17 +435,16 @@ theorem eraseRegion_validate_span (g : Tg Int) (hwf : ∀ t ∈ g.tiers, AnyWF t
 
 /-- … and under a proper region the call does return a textgrid -/
 theorem eraseRegion_validate_ok (g : Tg Int) (hwf : ∀ t ∈ g.tiers, AnyWF t) (hv : g.validate = true) (a b : Int)
-    (hab : a < b) (sh : Bool) (hin : sh = true → (∀ lo, g.lo = some lo → lo ≤ a) ∧ (∀ hi, g.hi = some hi → b ≤ hi)) :
+    (hab : a < b) (sh : Bool) :
     ∃ g', g.eraseRegion a b sh = .ok g' ∧ g'.validate = true ∧
-      g'.lo = g.lo ∧ g'.hi = (if sh then g.hi.map (fun x => x - (b - a)) else g.hi) ∧
+      g'.lo = g.lo ∧ g'.hi = (if sh then g.hi.map (fun x => x - clipLen (g.lo.getD a) x a b) else g.hi) ∧
       ∀ t' ∈ g'.tiers, g'.lo = some t'.lo ∧ g'.hi = some t'.hi ∧ AnyWF t' := by
   obtain ⟨hnd, hsp⟩ := (validate_iff g).1 hv
   obtain ⟨ts, hts⟩ := mapM_ok_of_forall (·.eraseRegion a b .truncate sh) g.tiers (fun t ht => by
-    obtain ⟨e1, e2, _⟩ := hsp t ht
-    obtain ⟨t', e, _⟩ := anyerase_spec (hwf t ht) hab sh (fun hs => ⟨(hin hs).1 _ e1, (hin hs).2 _ e2⟩)
+    obtain ⟨t', e, _⟩ := anyerase_spec (hwf t ht) hab sh
     exact ⟨t', e⟩)
   obtain ⟨g', e, _⟩ := (tgop_ok g hnd ts).2.1 a b sh hab hts
-  exact ⟨g', e, eraseRegion_validate g hwf hv a b sh hin g' e⟩
+  exact ⟨g', e, eraseRegion_validate g hwf hv a b sh g' e⟩
 
 /-! ## (4) insertSpace -/
 
@@ -567,11 +549,15 @@ example : ∃ g', exG.crop 2 6 .strict false = .ok g' ∧ g'.validate = true ∧
 
 example : ∃ g', exG.eraseRegion 2 6 true = .ok g' ∧ g'.validate = true ∧ g'.lo = some 0 ∧ g'.hi = some 6 := by
   obtain ⟨g', e, v, l, h, _⟩ := eraseRegion_validate_ok exG exG_wf exG_valid 2 6 (by decide) true
-    (fun _ => ⟨fun lo hl => by cases hl; decide, fun hi hh => by cases hh; decide⟩)
   exact ⟨g', e, v, l, h⟩
 
 example : ∃ g', exG.eraseRegion 2 6 false = .ok g' ∧ g'.validate = true ∧ g'.lo = some 0 ∧ g'.hi = some 10 := by
-  obtain ⟨g', e, v, l, h, _⟩ := eraseRegion_validate_ok exG exG_wf exG_valid 2 6 (by decide) false (fun h => by cases h)
+  obtain ⟨g', e, v, l, h, _⟩ := eraseRegion_validate_ok exG exG_wf exG_valid 2 6 (by decide) false
+  exact ⟨g', e, v, l, h⟩
+
+/-- regression of A28: a region sticking out of the span, shrinking — the result validates, the end is `10 - 4` -/
+example : ∃ g', exG.eraseRegion 6 15 true = .ok g' ∧ g'.validate = true ∧ g'.lo = some 0 ∧ g'.hi = some 6 := by
+  obtain ⟨g', e, v, l, h, _⟩ := eraseRegion_validate_ok exG exG_wf exG_valid 6 15 (by decide) true
   exact ⟨g', e, v, l, h⟩
 
 example : ∃ g', exG.insertSpace 3 5 .split = .ok g' ∧ g'.validate = true ∧ g'.lo = some 0 ∧ g'.hi = some 15 := by
@@ -600,6 +586,10 @@ example : ∃ g', exG.insertSpace 4 5 .error = .ok g' ∧ g'.validate = true ∧
 #guard ((exG.eraseRegion 2 6 true).toOption.map fun g => (g.validate, g.lo, g.hi, g.tiers.map fun t => (t.lo, t.hi)))
   == some (true, some 0, some 6, [(0, 6), (0, 6)])
 #guard ((exG.eraseRegion 2 6 false).toOption.map fun g => (g.validate, g.lo, g.hi, g.tiers.map fun t => (t.lo, t.hi)))
+  == some (true, some 0, some 10, [(0, 10), (0, 10)])
+#guard ((exG.eraseRegion 6 15 true).toOption.map fun g => (g.validate, g.lo, g.hi, g.tiers.map fun t => (t.lo, t.hi)))
+  == some (true, some 0, some 6, [(0, 6), (0, 6)])
+#guard ((exG.eraseRegion (-7) (-2) true).toOption.map fun g => (g.validate, g.lo, g.hi, g.tiers.map fun t => (t.lo, t.hi)))
   == some (true, some 0, some 10, [(0, 10), (0, 10)])
 #guard ((exG.insertSpace 3 5 .split).toOption.map fun g => (g.validate, g.lo, g.hi, g.tiers.map fun t => (t.lo, t.hi)))
   == some (true, some 0, some 15, [(0, 15), (0, 15)])
